@@ -3,6 +3,7 @@ import Chewing.Proofs.TrieBufSettle
 import Chewing.Proofs.SqliteDict
 import Chewing.Proofs.TrieLink
 import Chewing.Proofs.TrieLinkOrder
+import Chewing.Proofs.TrieFuzzyOrder
 /-!
 # C09 — Mutable dictionaries behave as a map under any update history
 
@@ -120,6 +121,14 @@ theorem fuzzy_order (s : State) (q : Key) :
         (fun e => !(s.grave.contains (e.1, e.2.text) ) ) |>.filter (fun e => fuzzyMatch e.1 q)).map (·.2)) ∧
     texts (lookupAll s q .fuzzyPartialPrefix) = firstOcc (texts (entriesIterFor s q .fuzzyPartialPrefix)) :=
   ⟨rfl, texts_dedup _⟩
+
+/-- both strategies in one formula: the candidates of a lookup are the phrases of the enumerated entries
+    (`entries()`: pending over persisted, minus tombstones) whose key matches the query under the strategy's
+    predicate — `==` for the exact strategy (where the code takes the shortcut through the trie's own lookup
+    and the `BTreeMap` range), per-syllable prefix for `FuzzyPartialPrefix` (where it IS the code) -/
+theorem lookup_is_filtered_enumeration (s : State) (k : Key) (st : Strategy) :
+    lookupAll s k st = dedup (((entries s).filter (fun e => keyMatch st e.1 k)).map (·.2)) := by
+  unfold TrieBuf.lookupAll; rw [entriesIterFor_uniform]
 
 /-- a candidate of a prefix lookup, layer by layer — each filter keyed by the key the phrase is stored
     under (the query's key was used before fix 097161a) -/
@@ -777,6 +786,19 @@ theorem file_entries_order (info : TrieCodec.Info) (es : List Entry) (hv : C11.V
       Trie.entries (Trie.build es) = (TrieLink.buildKeys es).flatMap fun k =>
         (TrieCodec.sortLeaf ((TrieCodec.refFind es k).getD [])).map fun p => (k, p) :=
   TrieLink.build_entries_exact info es hv bytes hw
+
+/-- **the persisted candidates of a prefix lookup come in file order** although the repaired code reads them
+    from the real, depth-first `Trie::entries()`: for the bytes written from valid entries, the real
+    enumeration (C11's byte-level model) restricted to the keys matching `q` is — as a list — the model's
+    file-order enumeration restricted to them, and its phrases are what `Trie::lookup_all_phrases(q,
+    FuzzyPartialPrefix)` returns (`Proofs/TrieFuzzyOrder.lean`: matching keys have the query's length, a
+    chain of proper prefixes holds at most one key of a length, so reversing the chains moves none of them) -/
+theorem fuzzy_order_is_file_order (info : TrieCodec.Info) (es : List Entry) (hv : C11.ValidInput info es) (bytes : Der.Bytes)
+    (hw : (TrieCodec.Builder.ofEntries info es).write = some bytes) (q : Key) :
+    ∃ tr real, TrieCodec.openTrie bytes = some tr ∧ TrieCodec.entries tr = .ok real ∧
+      real.filter (fun e => fuzzyMatch e.1 q) = (Trie.entries (Trie.build es)).filter (fun e => fuzzyMatch e.1 q) ∧
+      (real.filter (fun e => fuzzyMatch e.1 q)).map (·.2) = Trie.lookupAll (Trie.build es) q .fuzzyPartialPrefix :=
+  TrieLink.real_entries_fuzzy info es hv bytes hw q
 
 /-! ## 8. Non-vacuity: the hypotheses are satisfiable and the classes are inhabited -/
 
